@@ -350,7 +350,12 @@ def optimisation_case(ctx, rng, idx):
 def initial_case(ctx, rng, idx):
     which = idx % 3
     feats = {'posterior': ['individual', 'hierarchical', 'filter'][which]}
-    seed = int(rng.integers(0, 10 ** 6))
+    # boundary seeds are seeds too (0 is falsy)
+    seed = [0, int(rng.integers(0, 10 ** 6)), 1,
+            int(rng.integers(0, 10 ** 6))][(idx // 3) % 4]
+    if (idx // 12) % 3 == 1:
+        seed = np.int64(seed)
+    feats['seed'] = int(seed)
     n = int(rng.integers(1, 5))
     try:
         if which == 0:
@@ -375,7 +380,8 @@ def initial_case(ctx, rng, idx):
              sample=dict(feats, n_samples=n, seed=seed))
     try:
         a = post.sample_initial_parameters(n_samples=n, seed=seed)
-        np.random.seed(seed + 5)
+        np.random.seed(int(seed) + 5)
+        np.random.rand(int(rng.integers(1, 9)))
         b = post.sample_initial_parameters(n_samples=n, seed=seed)
     except Exception as e:      # noqa
         ctx.violation_exc('initial_parameters_raise', e, {'case': feats},
